@@ -432,9 +432,10 @@ def run(tier, seed):
         # the automaton is finite: the graph covers all line sequences of any length.
         replay(chk, g, list(core.edge_cover_paths(g)), params, label + '-edges')
         depth = 4 if thorough else 3
-        dfs = list(core.paths_dfs(g, depth, max_noop=depth))
-        if not thorough and len(dfs) > 1200:
-            dfs = rng.sample(dfs, 1200)
+        dfs = list(core.paths_dfs(g, depth, max_noop=depth, limit=400000))
+        cap = 60000 if thorough else 1200
+        if len(dfs) > cap:
+            dfs = rng.sample(dfs, cap)
         replay(chk, g, dfs, params, label + '-depth%d' % depth)
         replay(chk, g, list(core.random_walks(g, 3000 if thorough else 150, 14, rng)), params, label + '-walks')
         replay_coalesced(chk, g, list(core.random_walks(g, 6000 if thorough else 400, 12, rng)) +
